@@ -121,6 +121,23 @@ def r2(ctx, R):
                              "they keep the old copy and its values")
         if not found:
             R.bad(fi, fi.node, "no per-sub-space edit loop found", stmt="loop")
+    # every re-derivation of a cells (member-level on_inherit: two arguments) happens after the owning
+    # space discarded its instances - also on the base-edit path (UserSpaceImpl.on_inherit)
+    n_oi = 0
+    for f in ctx.repo.all_funcs(modules=["modelx.core"]):
+        for c in q.calls(f, name="on_inherit"):
+            if len(c.args) != 2 or c.keywords:
+                continue
+            n_oi += 1
+            R.inst("%s: cells re-derivation `%s` follows clear_subs_rootitems() of the owning space" % (f.short, norm(c)[:40]))
+            clears = q.calls(f, name="clear_subs_rootitems")
+            cfg = f.cfg
+            tests = {n_.id for n_ in cfg.nodes if n_.kind == "test" and norm(n_.ast) in ("attr == 'cells'", "'cells' == attr")}
+            r_ = cfg.reach([cfg.entry], avoid=set(q.nodes_for(f, clears)), avoid_edges={(t, "F") for t in tests})
+            if any(i in r_ for i in q.nodes_for(f, c)):
+                R.bad(f, c, "a derived cells is re-derived (new formula) while the ItemSpaces of its space keep the old copy: "
+                            "S[1].foo() keeps the value from the base that was removed")
+    R.need(n_oi >= 2, "expected >=2 member-level on_inherit calls, found %d" % n_oi)
     nc = ctx.func("SpaceManager.new_cells")
     R.inst("new_cells: the edited space itself discards its instances")
     if not q.calls(nc, name="clear_subs_rootitems", recv="space"):
